@@ -695,6 +695,7 @@ func (u *Unit) enterLoop(fr *Frame, li *loopInfo, st *State) {
 	// assume invariants
 	if li.spec != nil {
 		env := u.envFor(fr, st, u.entryFor(fr), nil)
+		env.loop = li
 		for _, inv := range li.spec.Invariants {
 			u.assume(st, u.evalBoolF(env, st, inv.Expr))
 		}
@@ -717,6 +718,7 @@ func (u *Unit) checkInvariant(fr *Frame, li *loopInfo, st *State, phase string) 
 		}
 	}
 	env := u.envFor(fr, st, u.entryFor(fr), nil)
+	env.loop = li
 	pos := token.NoPos
 	for _, in := range li.header.Instrs {
 		if in.Pos().IsValid() {
